@@ -131,6 +131,7 @@ class Ctx:
             "failures": self.failures,
             "notes": self.notes,
             "wall_s": time.time() - self.t0,
+            "cpu_s": time.process_time(),
         }
 
 
@@ -438,6 +439,8 @@ def main(mod: Any) -> None:
         "excluded_known_or_out_of_domain": dict(sorted(excluded.items())),
         "notes": notes,
         "known_findings_printed": known_lines,
+        "cpu_s_max_shard": round(max([r.get("cpu_s", 0.0) for r in results] + [0.0]), 1),
+        "cpu_s_total": round(sum(r.get("cpu_s", 0.0) for r in results), 1),
         "violation_buckets": [b for b, _ in violations],
         "shards": nshards,
     }
@@ -467,7 +470,8 @@ def main(mod: Any) -> None:
     print(
         f"{pid} tier={args.tier} seed={seed} evaluations={evaluations} "
         f"nontrivial={len(nontrivial)} known={len(known_lines)} "
-        f"violations={len(violations)} wall={wall:.1f}s"
+        f"violations={len(violations)} wall={wall:.1f}s "
+        f"cpu_max_shard={max([r.get('cpu_s', 0.0) for r in results] + [0.0]):.0f}s"
     )
     if violations:
         sys.exit(1)
